@@ -403,6 +403,79 @@ def _is_clean_call(v):
     return isinstance(v, ast.Call) and isinstance(v.func, ast.Attribute) and v.func.attr == "replace_nans_with_0"
 
 
+# ---------------------------------------------------------------------------
+# interface with the external LeProHQ tables
+# ---------------------------------------------------------------------------
+def leprohq_tables():
+    """Valid (function, projection, current) triples of the *installed* LeProHQ, read from its source without importing it:
+    keys of the Adler table, the per-projection functions of the raw modules, the data files of the interpolated NLO functions."""
+    import importlib.util
+    import pathlib
+    import re as _re
+
+    spec = importlib.util.find_spec("LeProHQ")
+    if spec is None or not spec.submodule_search_locations:
+        return None, "LeProHQ is not installed"
+    root = pathlib.Path(list(spec.submodule_search_locations)[0])
+    valid = {}
+    try:
+        tree = ast.parse((root / "adler_.py").read_text())
+        keys = set()
+        for n in ast.walk(tree):
+            if isinstance(n, ast.Assign) and any(isinstance(t, ast.Name) and t.id == "vals" for t in n.targets) and isinstance(n.value, ast.Dict):
+                for k in n.value.keys:
+                    if isinstance(k, ast.Tuple) and all(isinstance(e, ast.Constant) for e in k.elts):
+                        keys.add(tuple(e.value for e in k.elts))
+            # vals[(proj, cc)] = ... added after the literal
+            if isinstance(n, ast.Assign):
+                for t in n.targets:
+                    if isinstance(t, ast.Subscript) and isinstance(t.value, ast.Name) and t.value.id == "vals" and isinstance(t.slice, ast.Tuple) \
+                            and all(isinstance(e, ast.Constant) for e in t.slice.elts):
+                        keys.add(tuple(e.value for e in t.slice.elts))
+        valid["Adler"] = keys
+        for fn, raw in (("dq1", "dq1.py"), ("cg0", "cg0.py"), ("cgBar1", "cgBar1.py"), ("cqBarF1", "cqBarF1.py")):
+            names = {n.name for n in ast.walk(ast.parse((root / "raw" / raw).read_text())) if isinstance(n, ast.FunctionDef)}
+            valid[fn] = {tuple(m.groups()) for nm in names for m in [_re.match(rf"^{fn}_(\w+?)_([VA]{{2}})$", nm)] if m}
+        for fn in ("cg1", "cq1"):
+            files = [f.name for f in (root / "data" / fn).glob(f"{fn}-*-bulk.dat")]
+            keys = {tuple(m.groups()) for f in files for m in [_re.match(rf"^{fn}-(\w+?)_([VA]{{2}})-bulk\.dat$", f)] if m}
+            # parity-violating projections return 0 before any table is read (utils.raw_c)
+            keys |= {(p_, c_) for p_ in ("xF3", "g4", "gL") for c_ in ("VA", "AV", "VV", "AA")}
+            valid[fn] = keys
+        valid["cgBarF1"] = valid["cgBar1"] & valid["cg0"]
+        valid["cgBarR1"] = valid["cg0"]
+    except (OSError, SyntaxError) as e:
+        return None, f"LeProHQ source not readable: {e}"
+    return valid, str(root)
+
+
+def check_leprohq(rep, proj):
+    valid, where = leprohq_tables()
+    if valid is None:
+        rep.undecided("C16.ext", "", "LeProHQ", where)
+        return
+    n = 0
+    for m in proj.modules.values():
+        for node in ast.walk(m.tree):
+            if not (isinstance(node, ast.Call) and isinstance(node.func, ast.Attribute) and isinstance(node.func.value, ast.Name) and node.func.value.id == "LeProHQ"):
+                continue
+            fn = node.func.attr
+            site = f"{m.relpath}:{node.lineno}"
+            construct = f"{m.name}::LeProHQ.{fn}({', '.join(ast.unparse(a) for a in node.args[:2])})"
+            if fn not in valid:
+                rep.undecided("C16.ext", site, construct, f"LeProHQ.{fn} is not one of the audited entry points {sorted(valid)}")
+                continue
+            if len(node.args) < 2 or not all(isinstance(a, ast.Constant) and isinstance(a.value, str) for a in node.args[:2]):
+                rep.undecided("C16.ext", site, construct, "projection / current are not string literals")
+                continue
+            key = (node.args[0].value, node.args[1].value)
+            n += 1
+            rep.check(key in valid[fn], "C16.ext", site, construct, f"({key[0]}, {key[1]}) is tabulated by the installed LeProHQ ({len(valid[fn])} entries)",
+                      f"the installed LeProHQ has no {fn} entry for {key}: the first evaluation ends in a bare KeyError / AttributeError from the library "
+                      f"(available: {sorted(valid[fn])})", key=f"{fn}|{key}|{m.name}")
+    rep.floor("LeProHQ call sites audited", n, 35)
+
+
 def run(rep, proj, tier):
     rep.explanation = (
         "Partial evaluation of the repository's own source over the documented configuration lattice "
@@ -425,6 +498,7 @@ def run(rep, proj, tier):
         "heavy-quark coefficient functions folded on the above-threshold branch (the below-threshold branch is C09)",
         "TMC shifted point satisfies 0 < xi <= x (decided under C10.vars)",
     ]
+    check_leprohq(rep, proj)
     check_lattice(rep, proj, tier)
     check_kin(rep, proj, tier)
     check_nan(rep, proj, tier)
